@@ -25,6 +25,18 @@ def outlined_rules(rep, cfg):
                     tgt = tgt[3]
                 forks.append((name, ins, tgt[1][1:] if tgt[0] == 'g' else None))
     rep.floor('parallel regions[%s]' % cfg, len(forks), 16 if cfg == 'avx2' else 20)
+    # orphaned worksharing / barrier constructs: they bind to whatever team the *caller* happens to be in, so the result
+    # would depend on the caller's team size
+    for name in mod.funcs:
+        if name.startswith('.omp_outlined.') or not any(k in mod.dem.get(name, '') for k in ('Goldilocks', 'NTT_', 'Poseidon')):
+            continue
+        for lab, ins in mod.fn(name).instrs():
+            if ins.op in ('call', 'invoke') and ins.a[0][0] == 'g':
+                c = ins.a[0][1][1:]
+                if c.startswith('__kmpc_for_static_init') or c.startswith('__kmpc_dispatch_init') or c in ('__kmpc_barrier', '__kmpc_single', '__kmpc_master'):
+                    f, l = mod.loc(ins.dbg)
+                    rep.refute('orphan:%s/%s@%s' % (cfg, mod.dem.get(name, name).split('(')[0], l), 'omp-region-structure', '%s:%s' % (front.rel(f), l),
+                               'worksharing construct (%s) outside any parallel region of this function: it binds to the caller\'s team, so the result depends on the team the caller is in' % c)
     bad_calls = ('omp_get_thread_num', 'omp_get_num_threads', '__kmpc_reduce', '__kmpc_reduce_nowait', '__kmpc_critical',
                  '__kmpc_atomic', '__kmpc_dispatch_init_8u', '__kmpc_dispatch_init_4u', '__kmpc_dispatch_init_8', '__kmpc_dispatch_init_4',
                  '__kmpc_single', '__kmpc_master', '__kmpc_ordered')
